@@ -112,6 +112,12 @@ class UnitBuilder:
             wrap_close = '\n}'
             is_fn = True
             name = 'impl %s :: fn %s' % (hdr.strip(), fname)
+            for d in directives:
+                if d[0] == 'host':
+                    # R8: re-host a trait-impl method as an inherent method of the same name
+                    wrap_open = d[1].strip() + ' {\n'
+                    fired.append('R8 host=' + d[1].strip())
+                    sel = 'impl ' + d[1].strip().replace('impl ', '') + ' :: fn ' + fname
         elif sel.startswith('impl '):
             text = src.impl_item(sel[len('impl '):].strip())
             name = sel
@@ -270,7 +276,7 @@ class UnitBuilder:
                 parts = s[1:].split(None, 1)
                 k = parts[0]
                 arg = parts[1] if len(parts) > 1 else ''
-                if k in ('ret', 'sigcheck', 'attr', 'rename', 'rule'):
+                if k in ('ret', 'sigcheck', 'attr', 'rename', 'rule', 'host'):
                     ds.append((k, arg))
                 elif k == 'loop':
                     a = arg.split()
